@@ -52,13 +52,31 @@ Section WithEnv.
         save_segments enc h rest os1
     end.
 
+  (* the data of lazily loaded sections/segments is requested before the
+     layout re-assigns offsets (since the C15 fix) *)
+  Fixpoint force_sections (st : option istream) (t : xlat) (todo done : list section)
+    : res (option istream * list section) :=
+    match todo with
+    | [] => Ok (st, rev_append done [])
+    | s :: rest => '(st1, s1, _) <- sec_get_data junk st t s ;; force_sections st1 t rest (s1 :: done)
+    end.
+  Fixpoint force_segments (st : option istream) (t : xlat) (todo done : list segment)
+    : res (option istream * list segment) :=
+    match todo with
+    | [] => Ok (st, rev_append done [])
+    | g :: rest => '(st1, g1, _) <- seg_get_data st t g ;; force_segments st1 t rest (g1 :: done)
+    end.
+
   (* elfio::save( std::ostream& ) *)
-  Definition save (el : elfio) (os : ostream) : res (elfio * ostream * bool) :=
-    if os_bad os then Ok (el, os, false)
+  Definition save (el0 : elfio) (os : ostream) : res (elfio * ostream * bool) :=
+    if os_bad os then Ok (el0, os, false)
     else
-      match el_hdr el with
-      | None => Ok (el, os, false)
+      match el_hdr el0 with
+      | None => Ok (el0, os, false)
       | Some _ =>
+          '(sta, secsa) <- force_sections (el_stream el0) (el_xlat el0) (el_secs el0) [] ;;
+          '(stb, segsb) <- force_segments sta (el_xlat el0) (el_segs el0) [] ;;
+          let el := with_stream (with_segs (with_secs el0 secsa) segsb) stb in
           '(el1, ok) <- layout el ;;
           if negb ok then Ok (el1, os, false)
           else
